@@ -90,9 +90,24 @@ func Gen(t *rapid.T, typ reflect.Type, zone string) FV {
 		if rapid.IntRange(0, 7).Draw(t, "datetime.zero") == 0 {
 			return FV{Zero: true}
 		}
+		if rapid.IntRange(0, 5).Draw(t, "datetime.boundary") == 0 {
+			// the first and last seconds of the usual epochs and eras (clock-reset values, 32-bit limits, century turns)
+			b := rapid.SampledFrom([][6]int{{2000, 1, 1, 0, 0, 0}, {2000, 1, 1, 0, 0, 1}, {1999, 12, 31, 23, 59, 59}, {1970, 1, 1, 0, 0, 0}, {1969, 12, 31, 23, 59, 59}, {2038, 1, 19, 3, 14, 7},
+				{2038, 1, 19, 3, 14, 8}, {2099, 12, 31, 23, 59, 59}, {2100, 1, 1, 0, 0, 0}, {1, 1, 1, 0, 0, 1}, {1, 1, 2, 0, 0, 0}, {9999, 12, 31, 23, 59, 59}, {1900, 1, 1, 0, 0, 0}, {1601, 1, 1, 0, 0, 0},
+				{1980, 1, 1, 0, 0, 0}, {2001, 1, 1, 0, 0, 0}, {2000, 2, 29, 0, 0, 0}, {2020, 1, 1, 0, 0, 0}, {2106, 2, 7, 6, 28, 15}, {2000, 1, 1, 12, 0, 0}, {2000, 1, 2, 0, 0, 0}}).Draw(t, "datetime.edge")
+			if zones.CivilExists(loc, b[0], b[1], b[2], b[3], b[4], b[5]) {
+				return FV{Y: b[0], M: b[1], D: b[2], H: b[3], Mi: b[4], S: b[5]}
+			}
+		}
 		for i := 0; ; i++ {
 			c := gen.Civil(t, "datetime")
 			v := FV{Y: c.Y, M: c.M, D: c.D, H: rapid.IntRange(0, 23).Draw(t, "h"), Mi: rapid.IntRange(0, 59).Draw(t, "mi"), S: rapid.IntRange(0, 59).Draw(t, "s")}
+			switch rapid.IntRange(0, 9).Draw(t, "clock.edge") {
+			case 0:
+				v.H, v.Mi, v.S = 0, 0, 0
+			case 1:
+				v.H, v.Mi, v.S = 23, 59, 59
+			}
 			if zones.CivilExists(loc, v.Y, v.M, v.D, v.H, v.Mi, v.S) {
 				return v
 			}
